@@ -2,101 +2,96 @@ package log
 
 import (
 	"reflect"
-	"sync"
 	"unsafe"
 )
 
 // Accessors added to package log by overlay for the enumeration harness (not part of the library).
+// They name no private identifier of the tree under test except where marked `verif:needs` (such a
+// line is dropped by the instrumenter when the tree no longer has the name, and the accessor falls back
+// to the public API): package-level state is reached through the generated VerifGlobals() table and
+// reflection, so that a refactoring of private names / data structures does not break the harness.
 
-// VerifReset brings the package back to its initial state: stops whatever is running (best
-// effort), unbinds every tag and handle, forgets tags/handles not in keepTags/keepHandles and
-// restores the tunables.
-func VerifReset(keepTag func(string) bool, keepHandle func(string) bool) (panicked any) {
+// VerifReset brings the package back to the state it had when the harness started: stops whatever is
+// running (best effort) and restores everything reachable from the package-level variables, in place
+// (generated VerifResetGlobals: registries, lifecycle record, tunables, hooks, pools, caches).
+func VerifReset() (panicked any) {
 	func() {
 		defer func() { panicked = recover() }()
 		Destroy()
 	}()
-	// the whole lifecycle record back to its zero value, whatever its fields are called
-	gv := reflect.ValueOf(&global).Elem()
-	gv.Set(reflect.Zero(gv.Type()))
-	for name, t := range tagRegistry {
-		t.logger = nil
-		if keepTag != nil && !keepTag(name) {
-			delete(tagRegistry, name)
-		}
-	}
-	for name, l := range loggerMap {
-		l.logger = nil
-		if keepHandle != nil && !keepHandle(name) {
-			delete(loggerMap, name)
-		}
-	}
-	BufferCap.Store(10 * 1024)
-	enableCaller = true // verif:needs enableCaller
-	fastCaller = false  // verif:needs fastCaller
-	TimeNow = nil
-	StringFromContext = nil
-	FieldsFromContext = nil
+	VerifResetGlobals()
 	return
 }
 
-// VerifIsValidTag exposes the tag-name predicate.
-func VerifIsValidTag(s string) bool { return isValidTag(s) }
+// VerifIsValidTag exposes the tag-name predicate (through RegisterTag when the private predicate is gone).
+func VerifIsValidTag(s string) (valid bool) {
+	direct := false
+	valid, direct = isValidTag(s), true // verif:needs isValidTag
+	if direct {
+		return valid
+	}
+	defer func() {
+		if recover() != nil {
+			valid = false
+		}
+	}()
+	RegisterTag(s)
+	return true
+}
 
-// Lines marked `verif:needs` are dropped by the instrumenter when the tree under test no longer has
-// the private name, so that a refactoring there degrades an accessor instead of breaking the build.
+func verifBool(name string) *bool {
+	p, _ := VerifGlobals()[name].(*bool)
+	return p
+}
 
 // VerifCallerMode reads the caller-lookup switches (ok=false: the tree has no such switches any more).
 func VerifCallerMode() (enable, fast, ok bool) {
-	n := 0
-	enable, n = enableCaller, n+1 // verif:needs enableCaller
-	fast, n = fastCaller, n+1     // verif:needs fastCaller
-	return enable, fast, n == 2
+	e, f := verifBool("enableCaller"), verifBool("fastCaller")
+	if e == nil || f == nil {
+		return false, false, false
+	}
+	return *e, *f, true
 }
 
-// VerifSetCallerMode sets the caller-lookup switches directly.
-func VerifSetCallerMode(enable, fast bool) {
-	enableCaller = enable // verif:needs enableCaller
-	fastCaller = fast     // verif:needs fastCaller
-}
-
-// VerifClearFrameCache empties the fast-caller cache.
-func VerifClearFrameCache() {
-	frameCache = sync.Map{} // verif:needs frameCache
-}
-
-var _ = sync.Map{}
-
-// VerifLive returns the live logger and appender instances (plugin structs): every element of
-// every slice in the package's lifecycle record, whatever its fields are called, sorted into loggers
-// and appenders by the interface it implements.
+// VerifLive returns the live logger and appender instances (plugin structs): every element of every
+// slice field of every struct-typed package-level variable (the lifecycle record, whatever it and its
+// fields are called), sorted into loggers and appenders by the interface it implements.
 func VerifLive() (ls []Logger, as []Appender) {
-	gv := reflect.ValueOf(&global).Elem()
-	for i := 0; i < gv.NumField(); i++ {
-		f := gv.Field(i)
-		if f.Kind() != reflect.Slice {
+	seenL, seenA := map[Logger]bool{}, map[Appender]bool{}
+	for _, p := range VerifGlobals() {
+		gv := reflect.ValueOf(p).Elem()
+		if gv.Kind() != reflect.Struct || gv.Type().PkgPath() != "" && gv.Type().PkgPath() != reflect.TypeOf(Tag{}).PkgPath() {
 			continue
 		}
-		f = reflect.NewAt(f.Type(), unsafe.Pointer(f.UnsafeAddr())).Elem()
-		for k := 0; k < f.Len(); k++ {
-			switch x := f.Index(k).Interface().(type) {
-			case Logger:
-				ls = append(ls, x)
-			case Appender:
-				as = append(as, x)
+		for i := 0; i < gv.NumField(); i++ {
+			f := gv.Field(i)
+			if f.Kind() != reflect.Slice || !f.CanAddr() {
+				continue
+			}
+			k := f.Type().Elem().Kind()
+			if k != reflect.Interface && k != reflect.Ptr {
+				continue
+			}
+			f = reflect.NewAt(f.Type(), unsafe.Pointer(f.UnsafeAddr())).Elem()
+			for k := 0; k < f.Len(); k++ {
+				if !f.Index(k).CanInterface() {
+					continue
+				}
+				x := f.Index(k).Interface()
+				switch y := x.(type) {
+				case Logger:
+					if !seenL[y] {
+						seenL[y] = true
+						ls = append(ls, y)
+					}
+				case Appender:
+					if !seenA[y] {
+						seenA[y] = true
+						as = append(as, y)
+					}
+				}
 			}
 		}
 	}
 	return
 }
-
-// VerifTagLogger returns the logger bound to a registered tag (nil if unbound).
-func VerifTagLogger(tag string) Logger {
-	if t, ok := tagRegistry[tag]; ok {
-		return t.logger
-	}
-	return nil
-}
-
-// VerifToCamelKey exposes the key normalisation.
-func VerifToCamelKey(s string) string { return toCamelKey(s) }
